@@ -36,6 +36,25 @@ func minimise(s *Scenario, test func(*Scenario) bool, maxTests int, deadline tim
 			c.Reader.Fault.At = k
 		}
 	}
+	// the simulated environment: none, then a frozen clock / real CPU count
+	if cur.Env != nil {
+		c := cur.clone()
+		c.Env = nil
+		if !try(c) {
+			for _, f := range []func(e *EnvScn){
+				func(e *EnvScn) { e.ClockPerYield = 0 },
+				func(e *EnvScn) { e.ClockJump = 0 },
+				func(e *EnvScn) { e.CPUs = 0 },
+				func(e *EnvScn) { e.RandSeed = 0 },
+			} {
+				c := cur.clone()
+				f(c.Env)
+				if c.digest() != cur.digest() {
+					try(c)
+				}
+			}
+		}
+	}
 	// 0. the recorded history: drop prelude scenarios (chunked)
 	if len(cur.Prelude) > 0 {
 		c := cur.clone()
@@ -171,6 +190,14 @@ func minimise(s *Scenario, test func(*Scenario) bool, maxTests int, deadline tim
 			func(r *ReaderScn) { r.Scribble = "" },
 			func(r *ReaderScn) { r.Rich = false },
 			func(r *ReaderScn) { r.Consumer = "" },
+			func(r *ReaderScn) { r.Companion = nil },
+			func(r *ReaderScn) {
+				if r.Companion != nil {
+					c := *r.Companion
+					c.Every, c.Steps = 1, 1
+					r.Companion = &c
+				}
+			},
 			func(r *ReaderScn) { r.Std = "" },
 			func(r *ReaderScn) { r.GC, r.GCEvery = "", 0 },
 			func(r *ReaderScn) { r.Terminal = "separate" },
